@@ -97,10 +97,12 @@ class CapturedPath:
         # in the next iteration, so does not need to be handled here
       elif isinstance(nextitem.line, gfapy.line.edge.GFA2):
         oss_of_next = [nextitem.line.sid1, nextitem.line.sid2]
-        if oriented_edge.orient == "-":
+        if nextitem.orient == "-":
           for i in range(len(oss_of_next)):
             oss_of_next[i] = oss_of_next[i].inverted()
-        if oss[0] in oss_of_next:
+        # the edge is walked in the opposite direction only if the next edge
+        # cannot be reached otherwise
+        if oss[0] in oss_of_next and oss[1] not in oss_of_next:
           oss.reverse()
         # if oss_of_next have no element in common with oss an error will be
         # raised in the next iteration, so does not need to be handled here
